@@ -420,7 +420,7 @@ impl<'a> Repair<'a> {
                 continue;
             }
             let con = Con::Lookup(li, row);
-            let mut accepts = |s: &mut Self, v: F| {
+            let accepts = |s: &mut Self, v: F| {
                 s.t.advice[cell.0][cell.1] = v;
                 let r = !s.con_violated(&con);
                 s.t.advice[cell.0][cell.1] = old;
@@ -802,6 +802,7 @@ impl<'a> Repair<'a> {
 
 /// See `Repair::identity_row`.
 #[derive(Clone, Debug)]
+#[allow(dead_code)]
 pub struct IdentityRow {
     pub row: usize,
     pub aux: Vec<Cell>,
@@ -811,6 +812,7 @@ pub struct IdentityRow {
     pub aux_values: Vec<F>,
 }
 
+#[allow(dead_code)]
 pub struct RepairResult {
     /// advice cells whose value differs from the table the search started from
     pub changed: BTreeMap<Cell, F>,
